@@ -1,7 +1,7 @@
 (* Properties/C17.v — statements only. Admission control is bounded, priority-respecting and
    never strands a submitter. [admission] is the mutex-protected part of addLeafToPool; [victim]
    resolves Go's map iteration order and is universally quantified. *)
-From SL Require Import Ctlog.Model Ctlog.Theorems Ctlog.Stop Ctlog.Frame Ctlog.Example.
+From SL Require Import Ctlog.Model Ctlog.Theorems Ctlog.Stop Ctlog.Frame Ctlog.Writer Ctlog.Example.
 
 Theorem C17_pool_bounded : forall sha c closed p inseq cache e low victim wid,
   (0 < c_poolsize c)%N -> (N.of_nat (length (pl_leaves p)) <= c_poolsize c)%N ->
@@ -111,3 +111,12 @@ Example C17_stopped_forever_example :
   forallb (fun e => negb (replaces e 0)) evs = true /\
   length (w_acks (run toy_sha evs w)) = 2%nat.
 Proof. vm_compute. split; [eexists; repeat split; reflexivity|split; reflexivity]. Qed.
+
+(* "no further checkpoint is ever signed": the lock store is written only by a compare-and-swap step
+   of a running round or by CreateLog (C06_lock_written_only_by_cas_or_create); an instance that has
+   stopped is in neither phase, for ever (C17_stopped_forever), so none of its events writes it. *)
+Theorem C17_stopped_instance_never_signs : forall sha w i er t e,
+  stopped_with w i er t -> ev_inst e = Some i ->
+  w_lockhist (fst (step sha w e)) = w_lockhist w /\ w_lock (fst (step sha w e)) = w_lock w.
+Proof. exact stopped_instance_never_writes. Qed.
+Print Assumptions C17_stopped_instance_never_signs.
